@@ -88,13 +88,17 @@ PutKeys(saved) == UNION {DOMAIN saved[i].puts : i \in 1..Len(saved)}
 AllSavedFoundIn(saved, look) == \A k \in PutKeys(saved) : look[k] # 0
 (* a later sequential save of a key wins over an earlier one *)
 LaterWinsIn(saved, look, k) == look[k] \notin Superseded(saved, k)
-(* the known deviation (DESIGN 7, C21): a save made from a stale table        *)
-(* squashed its base into the new segment, so merge_in no longer recognises  *)
-(* the shared ancestry and copies stale entries over newer ones.  Shape: the *)
-(* regressed value v was visible in a table that a save or a merge squashed.  *)
-SquashHidesAncestry(sqviews, k, v) == \E view \in sqviews : view[k] = v
-(* sqviews: the lookups (k -> v) of every table that went into a squash: the *)
-(* base view of a squashing save, the result view of a squashing merge       *)
+(* the known deviation (DESIGN 7, C21): a save (or a merge) folded ancestor  *)
+(* segments into a new parentless segment ("squash"), so merge_in no longer  *)
+(* recognises the shared ancestry and copies stale entries over newer ones.  *)
+(* Shape: the regressed entry k |-> v was a local entry of a segment that    *)
+(* some save or merge squashed.  sqentries = set of such <<k, v>>.           *)
+SquashHidesAncestry(sqentries, k, v) == <<k, v>> \in sqentries
+RECURSIVE ChainSegs(_)
+ChainSegs(s) == IF s = NoSeg THEN {} ELSE {s} \cup ChainSegs(s.parent)
+(* entries of the segments of `base`'s stack that are no longer in `t`'s stack *)
+FoldedEntries(base, t) ==
+  UNION {{<<k, s.entries[k]>> : k \in DOMAIN s.entries} : s \in ChainSegs(base) \ ChainSegs(t)}
 (* saving (and squashing) never changes a lookup: base view overlaid with puts *)
 SaveViewOK(seen, puts, look, keys) ==
   \A k \in keys : look[k] = IF k \in DOMAIN puts THEN puts[k] ELSE seen[k]
